@@ -336,6 +336,160 @@ def oracle_c05(case, out):
     return f
 
 
+# ---- extra oracle-only case kinds (not in the machine model)
+
+class FlatCost(object):
+    """cost that ignores coordinate `flat` (a flat direction: a collapse candidate); picklable"""
+    def __init__(self, a, flat, tag):
+        self.a, self.flat, self.tag = a, flat, tag
+    def __call__(self, x):
+        rec = L.REG.get(self.tag)
+        if rec is not None:
+            rec.cost_calls.append((L._vec(x), {"s": 0.0}, 0)); rec.call_ctx.append({})
+        return float(sum((float(v) - ai) ** 2 for i, (v, ai) in enumerate(zip(x, self.a)) if i != self.flat))
+
+
+def gen_collapse(rng):
+    ndim = rng.choice([2, 3])
+    return dict(kind="collapse", solver=rng.choice(["NM", "DE", "DE2", "POW"]), ndim=ndim, npop=rng.choice([6, 8]),
+                seed=rng.randrange(10 ** 6), a=[G.grid(rng, -1, 1) for _ in range(ndim)], flat=rng.randrange(ndim),
+                x0=[G.grid(rng, 1, 3) for _ in range(ndim)], gens=rng.choice([2, 3, 5]), tol=rng.choice([1e-3, 0.05, 0.5]),
+                maxiter=rng.choice([30, 60]), how=rng.choice(["solve", "solve", "steps"]))
+
+
+def run_collapse(case):
+    import random as _r, io, contextlib, warnings
+    import numpy as np
+    import mystic.termination as T
+    with warnings.catch_warnings():
+        warnings.simplefilter("ignore")
+        with contextlib.redirect_stdout(io.StringIO()):
+            _r.seed(case["seed"]); np.random.seed(case["seed"] % (2 ** 31))
+            tag = L.new_tag(); rec = L.REG[tag] = L.Rec()
+            try:
+                s = L.build_solver(case["solver"], case["ndim"], case["npop"]); s._verif_tag = tag
+                s.SetInitialPoints(list(case["x0"]))
+                s.SetObjective(FlatCost(case["a"], case["flat"], tag))
+                s.SetEvaluationLimits(generations=case["maxiter"])
+                s.SetTermination(T.Or(T.ChangeOverGeneration(1e-12, 25), T.CollapseAt(None, case["tol"], case["gens"])))
+                cb = L.CbFn(tag)
+                with L.Instrumented():
+                    if case["how"] == "solve":
+                        s.Solve(callback=cb)
+                    else:
+                        n = 0
+                        while not s.Step(callback=cb) and n < 3 * case["maxiter"]:
+                            n += 1
+                collapsed = bool(getattr(s, "_collapse", False)) and len(rec.cb) > 0
+                return dict(nstep=rec.nstep, ncb=len(rec.cb), nsm=len(s._stepmon), gens=int(s.generations), evals=int(s.evaluations),
+                            ncalls=len(rec.cost_calls), last_cb=rec.cb[-1] if rec.cb else None, bestX=L._vec(s.bestSolution),
+                            collapsed_msgs=[m for m in getattr(s._stepmon, "_info", []) if "Collapse" in str(m)][:3])
+            finally:
+                L.REG.pop(tag, None)
+
+
+def oracle_collapse(case, out):
+    site = {"DE": "DifferentialEvolutionSolver", "DE2": "DifferentialEvolutionSolver2", "NM": "NelderMeadSimplexSolver", "POW": "PowellDirectionalSolver"}[case["solver"]]
+    if "__exception__" in out:
+        return [fail("no-crash", site, out["__exception__"], out.get("__msg__"))]
+    f = []
+    if out["ncb"] != out["nstep"]:
+        f.append(fail("callback_once_per_step", site, "callback-count-with-collapse", dict(callbacks=out["ncb"], iterations=out["nstep"])))
+    if out["evals"] != out["ncalls"] and case["solver"] != "DE2":
+        f.append(fail("counter_is_calls", site, "evaluations-differ-from-real-calls-with-collapse", dict(evaluations=out["evals"], real=out["ncalls"])))
+    if out["last_cb"] is not None and out["last_cb"] != out["bestX"] and case["solver"] != "POW":
+        f.append(fail("callback_once_per_step", site, "last-callback-not-reported-best", dict(last=out["last_cb"], best=out["bestX"])))
+    return f
+
+
+def gen_ensemble(rng):
+    ndim = rng.choice([1, 2])
+    return dict(kind="ensemble", ens=rng.choice(["lattice", "buckshot"]), nested=rng.choice(["DE", "DE2", "NM", "POW"]), ndim=ndim,
+                nbins=[rng.choice([1, 2]) for _ in range(ndim)], npts=rng.choice([2, 3]), seed=rng.randrange(10 ** 6),
+                a=[G.grid(rng, -1, 1) for _ in range(ndim)], lo=[-2.0] * ndim, hi=[2.0] * ndim, steps=rng.choice([2, 3, 5]),
+                inner=rng.choice([2, 3, 4]))
+
+
+class QuadCost(object):
+    def __init__(self, a, tag):
+        self.a, self.tag = a, tag
+    def __call__(self, x):
+        y = float(sum((float(v) - ai) ** 2 for v, ai in zip(x, self.a)))
+        rec = L.REG.get(self.tag)
+        if rec is not None:
+            rec.cost_calls.append((L._vec(x), {"s": y}, 0)); rec.call_ctx.append({})
+        return y
+
+
+def run_ensemble(case):
+    """C01 for ensembles: after every Step of a lattice/buckshot ensemble the reported best is an evaluated point with its cost"""
+    import random as _r, io, contextlib, warnings
+    import numpy as np
+    from mystic.solvers import LatticeSolver, BuckshotSolver
+    import mystic.termination as T
+    with warnings.catch_warnings():
+        warnings.simplefilter("ignore")
+        with contextlib.redirect_stdout(io.StringIO()):
+            _r.seed(case["seed"]); np.random.seed(case["seed"] % (2 ** 31))
+            tag = L.new_tag(); rec = L.REG[tag] = L.Rec()
+            try:
+                s = LatticeSolver(case["ndim"], case["nbins"]) if case["ens"] == "lattice" else BuckshotSolver(case["ndim"], case["npts"])
+                s.SetNestedSolver(L.solver_classes()[case["nested"]])
+                s.SetStrictRanges(list(case["lo"]), list(case["hi"]))
+                s.SetEvaluationLimits(generations=case["inner"])
+                s.SetTermination(T.VTR(-1.0))
+                s.SetObjective(QuadCost(case["a"], tag))
+                snaps = []
+                for k in range(case["steps"]):
+                    s.SetEvaluationLimits(generations=case["inner"] * (k + 1))
+                    s.Step()
+                    snaps.append(dict(bestX=L._vec(s.bestSolution), bestE=float(s.bestEnergy), ncalls=len(rec.cost_calls)))
+                return dict(snaps=snaps, calls=[(x, y["s"]) for x, y, _ in rec.cost_calls])
+            finally:
+                L.REG.pop(tag, None)
+
+
+def oracle_ensemble(case, out):
+    site = "ensemble:" + case["ens"] + "/" + case["nested"]
+    if "__exception__" in out:
+        return [fail("no-crash", site, out["__exception__"], out.get("__msg__"))]
+    f = []
+    for k, s in enumerate(out["snaps"]):
+        if not isfinite(s["bestE"]):
+            continue
+        made = out["calls"][:s["ncalls"]]
+        hit = [y for x, y in made if x == s["bestX"]]
+        if not hit:
+            f.append(fail("best_was_evaluated", site, "ensemble-best-not-evaluated", dict(step=k, bestX=s["bestX"])))
+            break
+        if s["bestE"] not in hit:
+            f.append(fail("best_energy_is_cost_plus_penalty", site, "ensemble-best-energy-mismatch", dict(step=k, bestE=s["bestE"], cost_there=hit[:2])))
+            break
+    return f
+
+
+def with_extras(gen, run, orc, extras):
+    """extend a (generate, run_impl, oracle) triple with oracle-only case kinds: extras = {kind: (share, gen, run, oracle)}"""
+    def generate(rng, n, tier):
+        for c in gen(rng, n, tier):
+            r = rng.random()
+            acc = 0.0
+            done = False
+            for kind, (share, g, _, _) in extras.items():
+                acc += share
+                if r < acc:
+                    yield g(rng); done = True; break
+            if not done:
+                yield c
+    def run_impl(case):
+        k = case.get("kind")
+        return extras[k][2](case) if k in extras else run(case)
+    def oracle(case, out):
+        k = case.get("kind")
+        return extras[k][3](case, out) if k in extras else orc(case, out)
+    return generate, run_impl, oracle
+
+
 # ---- Coq side
 def coq_preamble():
     return L.PREAMBLE
@@ -343,7 +497,7 @@ def coq_preamble():
 
 def make_coq_terms(mask):
     def coq_terms(case, out):
-        if "__exception__" in out or not L.modelled(case):
+        if "__exception__" in out or case.get("kind") in ("collapse", "ensemble") or not L.modelled(case):
             return []
         return [L.check_term(case, out, mask)]
     return coq_terms
@@ -354,6 +508,12 @@ def coq_debug(case, out, k):
 
 
 def classify(case, out):
+    if case.get("kind") in ("collapse", "ensemble"):
+        tags = ["kind:" + case["kind"], "solver:" + case.get("solver", case.get("nested", "?"))]
+        if "__exception__" in out:
+            return json.dumps(case, sort_keys=True), False, tags + ["exception:" + out["__exception__"]]
+        n = out.get("nstep", len(out.get("snaps", [])))
+        return json.dumps(case, sort_keys=True), n >= 2, tags
     ops = [o["op"] for o in case["ops"]]
     tags = ["solver:" + case["solver"], "ndim:%d" % case["ndim"]]
     tags += ["has:" + n for n in ("SetConstraints", "SetStrictRanges", "SetPenalty", "SetLimits", "Solve", "RequestExit", "Finalize", "SetEvalMonitor", "SetReducer") if n in ops]
@@ -375,6 +535,8 @@ def classify(case, out):
 
 
 def shrink(case):
+    if "ops" not in case:
+        return
     ops = case["ops"]
     for i in range(len(ops) - 1, -1, -1):
         if ops[i]["op"] in ("SetObjective",) and sum(1 for o in ops if o["op"] == "SetObjective") == 1:
